@@ -87,6 +87,13 @@ Located(e, slot) ==
 \* one slot, given the cursor st = [ci: next nested call, stopped: a nested call failed]
 SlotStep(e, reg, calls, st, i) ==
   IF st.stopped THEN st
+  \* README TemplateDelims: "preserve context within and surrounding the given opening and closing delimiters":
+  \* text that holds a template is written as it is and is not an embedded resource for any minifier
+  ELSE IF e.slots[i].tmpl THEN st
+  \* an empty raw element has no content to hand over: no nested call and nothing in the output ...
+  ELSE IF e.slots[i].kind \in ElementKinds /\ e.slots[i].payload = <<>>
+          /\ ~(st.ci <= Len(calls) /\ calls[st.ci].payload = <<>>)          \* ... unless the host does call with the empty content
+       THEN IF OutData(e.outslots[i]) = <<>> \/ RJ("ABSENT", i) THEN st ELSE st
   ELSE
     LET slot == e.slots[i]
         o    == e.outslots[i]
